@@ -1,6 +1,6 @@
 (* C09 - the RPU editor applies exactly the configured edits to exactly the configured frames. *)
 From Coq Require Import List NArith ZArith Bool String.
-From DV Require Import Outcome Bits BitIO Rpu Ops Editor EditorProofs.
+From DV Require Import Outcome Bits BitIO Rpu Ops Editor EditorProofs EditorDup.
 Import ListNotations.
 Open Scope N_scope.
 
@@ -58,7 +58,15 @@ Theorem C09_untouched : forall c rpus l' (j : nat),
   exists l1, removed_list c rpus = Ok l1 /\ nth_error l' j = nth_error l1 j.
 Proof. exact execute_untouched. Qed.
 
+(* the duplicate pass only adds: the list it receives (what the removals and the per-frame / ranged passes left) is
+   a subsequence of the list it returns - no frame disappears, the order is kept - and every frame of the result is
+   a frame of that list *)
+Theorem C09_duplicates_only_add : forall (B : Type) (ds : list dup) (data out : list B),
+  dup_apply ds data = Ok out -> subseq data out /\ (forall x, In x out -> In x data).
+Proof. exact (@dup_apply_keeps). Qed.
+
 Print Assumptions C09_length.
 Print Assumptions C09_invalid_range_is_error.
 Print Assumptions C09_untouched.
 Print Assumptions C09_range_inside.
+Print Assumptions C09_duplicates_only_add.
